@@ -63,6 +63,18 @@ PROPS = {
                  "Vec::extend appends (shim_vec_extend); derived Default of Diagnostics is empty"],
         not_claimed=["phase gating inside compile_files (apply/apply_unsafe)", "what happens inside the generator region (C18)", "exit status 79 path emits an error TEXT, not a diagnostic"],
     ),
+    "C17": dict(
+        units=["fileset", "diag_gate"],
+        claim="remove_duplicate_file_paths and resolve_files_from (slicec/src/utils/file_util.rs, real text) are verified: a list is reduced to the "
+              "first occurrence of every file (same file = equal canonical path), order kept, with exactly one DuplicateFile lint per dropped "
+              "repeat carrying that repeat's spelling; the compiled set is dedup(sources) ++ [reference not already present]; every SliceFile is "
+              "made, in order, from an entry of that set with its spelling and source flag. compile_from_options (diag_gate) parses nothing after a file error.",
+        trusted=["the OS-facing half: find_slice_files / find_slice_files_in_path / _in_directory / is_slice_file (existence, .slice extension, directory recursion), PathBuf::canonicalize (symlinks, spelling), fs::read_to_string",
+                 "PathBuf == PathBuf is an equivalence relation (path_facts axiom); FilePath's PartialEq is declared to vstd as that relation (ghost PartialEqSpecImpl) and its one-line body is verified against it",
+                 "<[T]>::contains: true iff some element compares equal (assume_specification); Vec::extend appends (shim)",
+                 "SliceFile::new records the path and flag it is given (opaque record with ghost accessors)"],
+        not_claimed=["which paths exist / are Slice files / what a directory contains (file system)", "that unreadable files produce exactly one E001 (the Err arm is verified panic-free only)"],
+    ),
     "C19": dict(
         units=["plugin_args"],
         claim="plugin_parser (slicec/src/slice_options.rs, real text incl. the re-targeted `&mut String` buffer) is verified for EVERY input "
@@ -139,6 +151,10 @@ NOT_APPLICABLE = {
 }
 
 MANIFEST_TEXT = {
+    "C17": dict(
+        level="Proof (Verus) of the SELECTION LOGIC: remove_duplicate_file_paths == dedup (first occurrences, order kept; lemmas: no two equal, every input represented) with one DuplicateFile lint per dropped repeat, spelling preserved, in order; resolve_files_from builds its files, in order, from compiled_set = dedup(sources) ++ references not already present (so a file listed as source and reference is compiled once, as a source, with no lint for the cross-list repeat); each SliceFile keeps spelling and is_source. File-system behaviour is trusted.",
+        design_ref="DESIGN.md section 7, C17", technique="Verus contracts on extracted real functions; loop invariants over prophetic iterator views (history ++ remaining); spec lemmas",
+        note="Partial claim (stated): selection logic, not the file-system walk. Assumed: canonical-path equality is an equivalence; slice::contains; find_slice_files as an uninterpreted function of (paths, flag)."),
     "C03": dict(
         level="Proof (Verus) of the LOOKUP DISCIPLINE only: find_node_with_scope == resolve (spec written from the property: innermost scope outwards, global last, '::' prefix global only) for all tables/scopes/names; add_named_element preserves the table invariant, writes exactly one entry (whole-table postcondition) and makes the element retrievable by its scoped name; 46 Node conversions: Ok <=> the node has the requested kind. The patcher that decides WHICH name/scope is looked up, alias flattening and attribute carrying are trusted.",
         design_ref="DESIGN.md section 7, C03", technique="Verus contracts on extracted real functions; loop invariant against a recursive spec; representation invariant; macro-expanded impls under a generated contract family",
